@@ -430,6 +430,22 @@ func spec_isStaleRemoval(e spec_Effect, p gengotypes.Package, base string) bool 
 		spec_existsIn(0, len(p.Files()), func(i int) bool { return e.Path == p.FileSet().File(p.Files()[i].FileStart).Name() })
 }
 
+// spec_fname(p, i): the full name of the i-th source file of package p.
+func spec_fname(p gengotypes.Package, i int) string {
+	return p.FileSet().File(p.Files()[i].FileStart).Name()
+}
+
+func spec_join(dir string, name string) string { return path.Join(dir, name) }
+
+// spec_openedIn / spec_removedIn: the effect log contains a truncating open / a removal of exactly this path.
+func spec_openedIn(fx []spec_Effect, x string) bool {
+	return spec_elem(spec_Effect{Kind: spec_Open, Path: x}, fx)
+}
+
+func spec_removedIn(fx []spec_Effect, x string) bool {
+	return spec_elem(spec_Effect{Kind: spec_Remove, Path: x}, fx)
+}
+
 //@ func gengoCtx.pkgExecute
 //@   props C02 C07 C06 C05
 //@   requires c != nil && c.args != nil && c.universe != nil
@@ -447,6 +463,9 @@ func spec_isStaleRemoval(e spec_Effect, p gengotypes.Package, base string) bool 
 //@   ensures len(spec_calls()) > len(old(spec_calls())) ==> spec_callMark() == len(old(spec_fx()))
 //@   ensures forall i int :: len(old(spec_fx())) <= i && i < len(spec_fx()) ==> spec_isOutput(spec_fx()[i], c.universe.Package(pkg).SourceDir(), c.args.OutputFileBaseName) || spec_isStaleRemoval(spec_fx()[i], c.universe.Package(pkg), c.args.OutputFileBaseName)
 //@   ensures forall i int, j int :: len(old(spec_calls())) <= i && i < len(spec_calls()) && 0 <= j && j < len(generators) && (spec_calls()[i].Kind == spec_GenType || spec_calls()[i].Kind == spec_GenAlias) ==> spec_calls()[i].Gen != generators[j]
+//@   ensures finalErr == nil && old(c.pkgChanged(pkg)) ==> c.universe.Package(pkg) != nil && (forall i int :: 0 <= i && i < len(c.universe.Package(pkg).Files()) && strings.HasPrefix(filepath.Base(spec_fname(c.universe.Package(pkg), i)), c.args.OutputFileBaseName+".") ==> spec_openedIn(spec_fx(), spec_join(c.universe.Package(pkg).SourceDir(), filepath.Base(spec_fname(c.universe.Package(pkg), i)))) || spec_existsIn(0, len(c.universe.Package(pkg).Files()), func(j int) bool { return filepath.Base(spec_fname(c.universe.Package(pkg), j)) == filepath.Base(spec_fname(c.universe.Package(pkg), i)) && spec_removedIn(spec_fx(), spec_fname(c.universe.Package(pkg), j)) }))
+//@   note (clause above, C07 "stale <base>.* files are removed") after a successful, non-cached package run every source file of the package whose base name starts with <base>. has either been rewritten (truncating open of <SourceDir>/<that base name>) or removed
+//@   loop 1 invariant forall j int :: 0 <= j && j < it1 && strings.HasPrefix(filepath.Base(spec_fname(p, j)), c.args.OutputFileBaseName+".") ==> has(generatedFiles, filepath.Base(spec_fname(p, j)))
 //@   loop 1 invariant p != nil && pkgCtx != nil && pkgCtx.pkg == p && pkgCtx.pkgTags != nil && pkgCtx.args == c.args && pkgCtx.universe == c.universe && generatedFiles != nil && eq(spec_fx(), old(spec_fx())) && eq(spec_calls(), old(spec_calls()))
 //@   loop 1 invariant forall k string :: has(generatedFiles, k) ==> strings.HasPrefix(k, c.args.OutputFileBaseName+".") && filepath.Base(generatedFiles[k]) == k && spec_existsIn(0, len(p.Files()), func(i int) bool { return generatedFiles[k] == p.FileSet().File(p.Files()[i].FileStart).Name() })
 //@   loop 2 invariant p != nil && pkgCtx != nil && pkgCtx.pkg == p && pkgCtx.pkgTags != nil && pkgCtx.args == c.args && pkgCtx.universe == c.universe
@@ -472,6 +491,11 @@ func spec_isStaleRemoval(e spec_Effect, p gengotypes.Package, base string) bool 
 //@   loop 5 invariant len(spec_fx()) >= len(old(spec_fx())) && eq(spec_fx()[:len(old(spec_fx()))], old(spec_fx()))
 //@   loop 5 invariant forall i int :: len(old(spec_fx())) <= i && i < len(spec_fx()) ==> spec_isOutput(spec_fx()[i], p.SourceDir(), c.args.OutputFileBaseName)
 //@   loop 5 invariant forall k string :: has(generatedFiles, k) ==> strings.HasPrefix(k, c.args.OutputFileBaseName+".") && filepath.Base(generatedFiles[k]) == k && spec_existsIn(0, len(p.Files()), func(i int) bool { return generatedFiles[k] == p.FileSet().File(p.Files()[i].FileStart).Name() })
+//@   loop 5 assume forall i int :: 0 <= i && i < len(ys5b) ==> len(spec_written(ys5b[i].(*genfile).body)) > 0
+//@   note (loop 5 assume) a genfile that had content when it was stored still has content when it is written: no user code resets ANOTHER generator's buffer
+//@   loop 5 invariant forall k string :: has(entry(generatedFiles), k) ==> (has(generatedFiles, k) && generatedFiles[k] == entry(generatedFiles)[k]) || spec_openedIn(spec_fx(), spec_join(p.SourceDir(), k))
+//@   loop 6 invariant len(spec_fx()) >= len(entry(spec_fx())) && eq(spec_fx()[:len(entry(spec_fx()))], entry(spec_fx()))
+//@   loop 6 invariant forall a int :: 0 <= a && a < it6 ==> spec_removedIn(spec_fx(), generatedFiles[ks6[a]])
 //@   loop 6 invariant p != nil && p == c.universe.Package(pkg) && eq(spec_calls(), entry(spec_calls())) && len(spec_fx()) >= len(old(spec_fx())) && eq(spec_fx()[:len(old(spec_fx()))], old(spec_fx()))
 //@   loop 6 invariant forall i int :: len(old(spec_calls())) <= i && i < len(spec_calls()) ==> !spec_callFailed(spec_calls()[i])
 //@   loop 6 invariant forall i int :: len(old(spec_fx())) <= i && i < len(spec_fx()) ==> spec_isOutput(spec_fx()[i], p.SourceDir(), c.args.OutputFileBaseName) || spec_isStaleRemoval(spec_fx()[i], p, c.args.OutputFileBaseName)
@@ -638,7 +662,7 @@ func spec_sortedKeys[V any](m map[string]V) []string {
 
 // spec_Effect: one file-system effect of a run (the only modelled ways bytes on disk change).
 type spec_Effect struct {
-	Kind int // spec_Open: file created or truncated; spec_Write: bytes written to an open file; spec_Remove; spec_SaveSum: gengo.sum rewritten
+	Kind int // spec_Open: file created or truncated; spec_Write: bytes written to an open file; spec_Remove; spec_SaveSum: gengo.sum rewritten; spec_OpenKeep: opened for writing WITHOUT truncation
 	Path string
 }
 
@@ -647,6 +671,7 @@ const (
 	spec_Write   = 2
 	spec_Remove  = 3
 	spec_SaveSum = 4
+	spec_OpenKeep = 5
 )
 
 // spec_fx(): the effect log so far, in order (ghost).
